@@ -57,8 +57,30 @@ type verifConfChange struct {
 	Done  []string `json:"done"` // snaps all of whose tasks in this (unready) change are ready
 }
 
+// verifConfACfg is the automatic-alias situation of a history (spec variable acfg), in spec snap names
+type verifConfACfg struct {
+	New  []string `json:"new"`  // the snap-declaration gives these snaps a new automatic alias
+	Drop []string `json:"drop"` // these snaps hold an automatic alias that is gone from their snap-declaration
+	Xsrc []string `json:"xsrc"` // (at most one) holds automatic alias "verifmoved", which now belongs to ...
+	Xdst []string `json:"xdst"` // ... this snap
+}
+
+func verifConfNoACfg() verifConfACfg {
+	return verifConfACfg{New: []string{}, Drop: []string{}, Xsrc: []string{}, Xdst: []string{}}
+}
+
+func verifConfIn(l []string, x string) bool {
+	for _, y := range l {
+		if x == y {
+			return true
+		}
+	}
+	return false
+}
+
 type verifConfSt struct {
 	Changes []verifConfChange `json:"changes"`
+	ACfg    verifConfACfg     `json:"acfg"`
 	Status  map[string]string `json:"status"`
 	Same    bool              `json:"same"`
 	NChg    int               `json:"nchg"`
@@ -78,6 +100,9 @@ type verifConfSuite struct {
 	w      *bufio.Writer
 	caseN  int
 	chgs   []*state.Change // changes of the current history, creation order
+	acfg   verifConfACfg
+	nextA  *verifConfACfg // alias situation for the next history (nil: none, or random for random histories)
+	aliasH int
 	// stats
 	requests, accepted, conflicts int
 	classes                       map[string]bool
@@ -93,7 +118,21 @@ func (s *verifConfSuite) fixtureUp(c *C) {
 	s.state.Lock()
 	snapstate.ReplaceStore(s.state, s.vstore)
 	s.state.Unlock()
-	snapstate.AutoAliases = func(*state.State, *snap.Info) (map[string]string, error) { return nil, nil }
+	// the snap-declaration side of the automatic aliases, per history (s.acfg)
+	snapstate.AutoAliases = func(_ *state.State, info *snap.Info) (map[string]string, error) {
+		sn, ok := verifConfSpec[info.InstanceName()]
+		if !ok {
+			return nil, nil
+		}
+		res := map[string]string{}
+		if verifConfIn(s.acfg.New, sn) {
+			res["verifnew-"+sn] = "cmd1"
+		}
+		if verifConfIn(s.acfg.Xdst, sn) {
+			res["verifmoved"] = "cmd1"
+		}
+		return res, nil
+	}
 	baseRead := s.fakeBackend.ReadInfo
 	s.AddCleanup(snapstate.MockSnapReadInfo(func(name string, si *snap.SideInfo) (*snap.Info, error) {
 		if name == "snapd" {
@@ -129,7 +168,26 @@ func (s *verifConfSuite) setStatus(spec, status string) {
 	}
 	snapst := verifConfSeq(name, 5, 7)
 	snapst.Current = snap.R(7)
-	snapst.Active = status == "active"
+	snapst.Active = status != "inactive"
+	// "uptodate": the store has nothing newer than the current revision
+	if s.fakeStore.refreshRevnos == nil {
+		s.fakeStore.refreshRevnos = map[string]snap.Revision{}
+	}
+	if status == "uptodate" {
+		s.fakeStore.refreshRevnos[name+"-id"] = snap.R(7)
+	} else {
+		delete(s.fakeStore.refreshRevnos, name+"-id")
+	}
+	// the recorded side of the automatic aliases
+	if verifConfIn(s.acfg.Drop, spec) || verifConfIn(s.acfg.Xsrc, spec) {
+		snapst.Aliases = map[string]*snapstate.AliasTarget{}
+		if verifConfIn(s.acfg.Drop, spec) {
+			snapst.Aliases["verifgone-"+spec] = &snapstate.AliasTarget{Auto: "cmd1"}
+		}
+		if verifConfIn(s.acfg.Xsrc, spec) {
+			snapst.Aliases["verifmoved"] = &snapstate.AliasTarget{Auto: "cmd1"}
+		}
+	}
 	snapstate.Set(s.state, name, snapst)
 }
 
@@ -141,6 +199,9 @@ func (s *verifConfSuite) status(spec string) string {
 		return "absent"
 	}
 	if snapst.Active {
+		if s.fakeStore.refreshRevnos[verifConfReal[spec]+"-id"] == snapst.Current {
+			return "uptodate"
+		}
 		return "active"
 	}
 	return "inactive"
@@ -157,6 +218,7 @@ func (s *verifConfSuite) snapsDigest() string {
 func (s *verifConfSuite) project(c *C, same bool) verifConfSt {
 	var ps verifConfSt
 	ps.Same = same
+	ps.ACfg = s.acfg
 	ps.NChg = len(s.state.Changes())
 	ps.Status = map[string]string{}
 	for _, n := range append(append([]string{}, verifConfSnaps...), "snapd") {
@@ -329,9 +391,13 @@ func (s *verifConfSuite) request(c *C, op string, S []string, from *state.Change
 		_, tss, err := snapstate.UpdateMany(context.Background(), st, verifConfRealNames(S), nil, s.user.ID, &snapstate.Flags{})
 		return tss, err
 	case "refresh-all":
-		updated, tss, err := snapstate.UpdateMany(context.Background(), st, nil, nil, s.user.ID, &snapstate.Flags{})
-		if err == nil && len(updated) == 0 {
-			// the API layer creates no in-progress change for "no updates"
+		_, tss, err := snapstate.UpdateMany(context.Background(), st, nil, nil, s.user.ID, &snapstate.Flags{})
+		ntasks := 0
+		for _, ts := range tss {
+			ntasks += len(ts.Tasks())
+		}
+		if err == nil && ntasks == 0 {
+			// the API layer creates no in-progress change when there are no task sets (the change is Done at once)
 			return nil, nil
 		}
 		return tss, err
@@ -512,6 +578,7 @@ func verifConfSubset(r *rand.Rand, l []string, min int) []string {
 // one random step of a history; state locked
 func (s *verifConfSuite) step(c *C, r *rand.Rand) {
 	active := s.snapsWith(func(x string) bool { return x == "active" })
+	activeLike := s.snapsWith(func(x string) bool { return x == "active" || x == "uptodate" })
 	inactive := s.snapsWith(func(x string) bool { return x == "inactive" })
 	absent := s.snapsWith(func(x string) bool { return x == "absent" })
 	installed := s.snapsWith(func(x string) bool { return x != "absent" })
@@ -576,8 +643,11 @@ func (s *verifConfSuite) step(c *C, r *rand.Rand) {
 		}
 		return []string{verifConfPick(r, l)}
 	}
-	for _, op := range []string{"refresh", "refresh", "revert", "disable", "switch", "alias", "unalias", "prefer"} {
+	for _, op := range []string{"refresh", "refresh"} {
 		add(op, one(active))
+	}
+	for _, op := range []string{"revert", "disable", "switch", "alias", "unalias", "prefer"} {
+		add(op, one(activeLike))
 	}
 	add("install", one(absent))
 	add("install", one(absent))
@@ -587,8 +657,16 @@ func (s *verifConfSuite) step(c *C, r *rand.Rand) {
 	add("install-many", verifConfSubset(r, absent, 2))
 	add("refresh-many", verifConfSubset(r, active, 2))
 	add("remove-many", verifConfSubset(r, installed, 2))
-	if len(active) > 0 {
-		add("refresh-all", active)
+	if len(activeLike) > 0 {
+		all := active
+		if all == nil {
+			all = []string{}
+		}
+		add("refresh-all", all)
+		if len(s.acfg.New)+len(s.acfg.Drop)+len(s.acfg.Xsrc) > 0 {
+			add("refresh-all", all)
+			add("refresh-all", all)
+		}
 	}
 	for _, op := range []string{"snapd-revert-down", "snapd-refresh-down", "snapd-refresh-up"} {
 		cands = append(cands, cand{op: op, S: []string{"snapd"}})
@@ -609,7 +687,7 @@ func (s *verifConfSuite) step(c *C, r *rand.Rand) {
 	cd := cands[r.Intn(len(cands))]
 	switch cd.op {
 	case "install", "refresh", "install-many", "refresh-many", "refresh-all":
-		if r.Intn(4) == 0 {
+		if r.Intn(4) == 0 && len(cd.S) > 0 {
 			cd.mutated = []string{verifConfPick(r, cd.S)}
 		}
 	}
@@ -817,6 +895,85 @@ func (s *verifConfSuite) runPairs(c *C, newHistory func(status map[string]string
 	return n
 }
 
+// runAliasDirected: a refresh also operates on snaps it does not refresh -- those whose automatic aliases changed
+// (refresh-aliases) or moved away / vanished (prune-auto-aliases). Snap b is the "other" snap: it is left busy by a
+// first request, then everything is refreshed (and, for transfers, the transfer target by name).
+func (s *verifConfSuite) runAliasDirected(c *C, newHistory func(status map[string]string)) {
+	type sit struct {
+		a    verifConfACfg
+		bSts []string
+	}
+	mk := func(nw, dr, xs, xd []string) verifConfACfg {
+		a := verifConfNoACfg()
+		if nw != nil {
+			a.New = nw
+		}
+		if dr != nil {
+			a.Drop = dr
+		}
+		if xs != nil {
+			a.Xsrc, a.Xdst = xs, xd
+		}
+		return a
+	}
+	B := []string{"b"}
+	sits := []sit{
+		{mk(B, nil, nil, nil), []string{"uptodate", "active", "inactive"}},
+		{mk(nil, B, nil, nil), []string{"uptodate", "active"}},
+		{mk(nil, nil, B, []string{"a"}), []string{"uptodate", "active", "inactive"}},
+		{mk(nil, nil, B, []string{"c"}), []string{"active"}},
+		{mk(B, []string{"c"}, nil, nil), []string{"uptodate"}},
+	}
+	firsts := map[string][]string{
+		"uptodate": {"", "disable", "remove", "switch", "alias", "revert", "remove-many"},
+		"active":   {"", "disable", "remove", "refresh", "refresh-many"},
+		"inactive": {"", "enable", "remove"},
+	}
+	for _, si := range sits {
+		for _, bst := range si.bSts {
+			for _, first := range firsts[bst] {
+				for _, second := range []string{"refresh-all", "progress+refresh-all", "refresh-a"} {
+					cst := "active"
+					if verifConfIn(si.a.Drop, "c") {
+						cst = "uptodate"
+					}
+					a := si.a
+					s.nextA = &a
+					newHistory(map[string]string{"a": "active", "b": bst, "c": cst})
+					switch first {
+					case "":
+					case "refresh-many", "remove-many":
+						l := []string{"b", "c"}
+						if first == "refresh-many" && cst != "active" {
+							l = []string{"b"}
+							first = "refresh"
+						}
+						s.doRequest(c, first, l, 0, nil)
+					default:
+						s.doRequest(c, first, []string{"b"}, 0, nil)
+					}
+					active := s.snapsWith(func(x string) bool { return x == "active" })
+					if active == nil {
+						active = []string{}
+					}
+					switch second {
+					case "refresh-all":
+						s.doRequest(c, "refresh-all", active, 0, nil)
+					case "progress+refresh-all":
+						if live := s.live(); len(live) > 0 {
+							verifConfAbort(s.chgs[live[0]-1])
+							s.emit(c, "Progress", map[string]interface{}{"c": live[0], "how": "abort"}, nil, true)
+						}
+						s.doRequest(c, "refresh-all", active, 0, nil)
+					case "refresh-a":
+						s.doRequest(c, "refresh", []string{"a"}, 0, nil)
+					}
+				}
+			}
+		}
+	}
+}
+
 func (s *verifConfSuite) TestVerifConflictsRun(c *C) {
 	out := os.Getenv("VERIF_OUT")
 	n := verifConfEnvInt("VERIF_N", 20)
@@ -855,12 +1012,47 @@ func (s *verifConfSuite) TestVerifConflictsRun(c *C) {
 			}
 		}
 		s.chgs = nil
-		for _, sn := range verifConfSnaps {
-			if status != nil {
-				s.setStatus(sn, status[sn])
-			} else {
-				s.setStatus(sn, verifConfPick(r, []string{"absent", "active", "active", "inactive"}))
+		if status == nil {
+			status = map[string]string{}
+			for _, sn := range verifConfSnaps {
+				status[sn] = verifConfPick(r, []string{"absent", "active", "active", "active", "inactive", "uptodate"})
 			}
+			if s.nextA == nil && r.Intn(2) == 0 {
+				// a random automatic-alias situation among the installed snaps
+				var inst []string
+				for _, sn := range verifConfSnaps {
+					if status[sn] != "absent" {
+						inst = append(inst, sn)
+					}
+				}
+				a := verifConfNoACfg()
+				if len(inst) > 0 {
+					r.Shuffle(len(inst), func(i, j int) { inst[i], inst[j] = inst[j], inst[i] })
+					switch k := r.Intn(4); {
+					case k == 0:
+						a.New = []string{inst[0]}
+					case k == 1:
+						a.Drop = []string{inst[0]}
+					case k == 2 && len(inst) > 1:
+						a.Xsrc, a.Xdst = []string{inst[0]}, []string{inst[1]}
+					default:
+						a.New = []string{inst[0]}
+						if len(inst) > 1 {
+							a.Drop = []string{inst[1]}
+						}
+					}
+				}
+				s.nextA = &a
+			}
+		}
+		s.acfg = verifConfNoACfg()
+		if s.nextA != nil {
+			s.acfg = *s.nextA
+			s.nextA = nil
+			s.aliasH++
+		}
+		for _, sn := range verifConfSnaps {
+			s.setStatus(sn, status[sn])
 		}
 		sd := verifConfSeq("snapd", 1, 2, 3)
 		sd.Current = snap.R(2)
@@ -873,6 +1065,8 @@ func (s *verifConfSuite) TestVerifConflictsRun(c *C) {
 		snapstate.Set(s.state, "snapd", sd)
 		s.emit(c, "Reset", map[string]interface{}{}, nil, true)
 	}
+	// directed histories for the operations a refresh performs on OTHER snaps (automatic aliases): always run
+	s.runAliasDirected(c, newHistory)
 	pairs := 0
 	if os.Getenv("VERIF_PAIRS") != "" && os.Getenv("VERIF_PAIRS") != "0" {
 		pairs = s.runPairs(c, newHistory)
@@ -888,8 +1082,8 @@ func (s *verifConfSuite) TestVerifConflictsRun(c *C) {
 		s.fixtureDown(c)
 	}
 	s.w.Flush()
-	fmt.Printf("VERIF-STATS {\"traces\":%d,\"pairs\":%d,\"requests\":%d,\"accepted\":%d,\"conflicts\":%d,\"distinct_classes\":%d}\n",
-		hist, pairs, s.requests, s.accepted, s.conflicts, len(s.classes))
+	fmt.Printf("VERIF-STATS {\"traces\":%d,\"pairs\":%d,\"alias_histories\":%d,\"requests\":%d,\"accepted\":%d,\"conflicts\":%d,\"distinct_classes\":%d}\n",
+		hist, pairs, s.aliasH, s.requests, s.accepted, s.conflicts, len(s.classes))
 }
 
 func TestVerifConflicts(t *testing.T) {
